@@ -1229,6 +1229,9 @@ func (ex *Exec) scanWrites(n ast.Node, info *types.Info) *writes {
 				for _, a := range call.Args {
 					if u, ok := ast.Unparen(a).(*ast.UnaryExpr); ok && u.Op == token.AND {
 						ex.scanLHS(u.X, ex.top.Pkg.TypesInfo, w)
+						if t := ex.top.Pkg.TypesInfo.TypeOf(u.X); t != nil && se.Sel.Name == "NewDecodingLayerParser" {
+							w.binReads[typeKey(t)] = t
+						}
 					}
 				}
 			}
